@@ -146,9 +146,11 @@ Step(e) ==
        /\ UNCHANGED <<M, Hk, clears, open, lp, lastClear, replica, full, synced, win, adm, alive, td, sfresh, wupd, f5, swin, nclr, late, sq, rlk, fq, stopping, kf>>
     \/ /\ e.e = "req" /\ e.op = "sync"
        /\ LET r == e.r  l == e.lane
-              \* r is neither linked nor about to be when it asks for the sync
-              fresh == /\ ~open[r][l] /\ ~rlk[r][l] /\ sq[r][l] = <<>> /\ fq[r][l] = <<>>
-                       /\ \A j \in 1..Len(cq[r][l]) : cq[r][l][j].op # "link"
+              \* r will not be linked when the runtime has dealt with its earlier requests (it never asked to be, or
+              \* asked to be unlinked since) and no earlier sync of its own is outstanding
+              willBeLinked == IF cq[r][l] # <<>> THEN cq[r][l][Len(cq[r][l])].op = "link"
+                                                 ELSE (rlk[r][l] \/ open[r][l])
+              fresh == ~willBeLinked /\ sq[r][l] = <<>>
               first == win[r][l] = 0 IN
           /\ sq' = [sq EXCEPT ![r][l] = Append(@, [pos |-> CurPos(l)])]
           /\ win' = [win EXCEPT ![r][l] = @ + 1]
